@@ -4,7 +4,8 @@
     VerifyPacketAcknowledgement for kind 1) — an arbitrary oracle here; what it guarantees for Tendermint / BSC /
     ETH clients (consensus state accepted by the client at that height, ICS-23 / MPT membership) is C07 / C08. *)
 From Teleport Require Import Base.Bytes Base.Outcome Base.AList Model.Packet Model.PacketKeys
-     Proofs.Packet Proofs.PacketC02 Proofs.PacketKeys Proofs.PacketExamples.
+     Proofs.Packet Proofs.PacketC02 Proofs.PacketClients Proofs.PacketKeys Proofs.PacketExamples.
+From Teleport Require Import Model.PacketClients.
 Local Open Scope N_scope.
 
 (** An accepted receive: the packet bytes decode without error to a valid packet p addressed to / from this chain,
@@ -57,6 +58,54 @@ Print Assumptions C02_accepted_passed_basic.
 Theorem C02_not_basic_rejected : forall P s env a, msg_basic P a = false -> step P s (env, a) = (s, false).
 Proof. intros P s env a H. unfold step, deliver. cbn [fst snd]. rewrite H. reflexivity. Qed.
 Print Assumptions C02_not_basic_rejected.
+
+(** "… against a consensus state it accepted ITSELF at the stated proof height", across governance operations
+    (client-store layer Model/PacketClients.v: [cstore] = the heights of the consensus states the client INSTANCE stored
+    under a name holds — written by its creation, its updates and upgrades; a ToggleClient clears the client store, so
+    the new instance holds none of the old heights).  An accepted receive / acknowledgement through a proof-verifying
+    (non-TSS) client is verified as above AND its proof height is one the PRESENT instance accepted. *)
+Theorem C02_recv_at_accepted_height : forall P env s cs m cb s',
+  deliver2 P env s cs (ARecv m cb) = Ok s' ->
+  recv_verified P env s m /\
+  forall ct, aget (p_src (fst (decode P (rm_packet m)))) (st_clients s) = Some ct -> is_tss ct = false ->
+             In (rm_height m) (heights_of cs (p_src (fst (decode P (rm_packet m))))).
+Proof. exact recv_at_accepted_height. Qed.
+Print Assumptions C02_recv_at_accepted_height.
+
+Theorem C02_ack_at_accepted_height : forall P, (forall x, sha256 P x <> []) -> forall env s cs m cb1 cb2 cb3 s',
+  deliver2 P env s cs (AAck m cb1 cb2 cb3) = Ok s' ->
+  ack_verified P env s m /\
+  forall ct, aget (p_dst (fst (decode P (am_packet m)))) (st_clients s) = Some ct -> is_tss ct = false ->
+             In (am_height m) (heights_of cs (p_dst (fst (decode P (am_packet m))))).
+Proof. exact ack_at_accepted_height. Qed.
+Print Assumptions C02_ack_at_accepted_height.
+
+(** After an accepted ToggleClient the client holds exactly the consensus states the new instance wrote — none of the
+    old ones — and a message whose proof height only an EARLIER instance accepted is rejected, state equal. *)
+Theorem C02_toggle_forgets_old_heights : forall P env s cs n c ok w s' cs',
+  step2 P (s, cs) ((env, AToggleClient n c ok), w) = ((s', cs'), true) -> heights_of cs' n = w.
+Proof. exact toggle_forgets_old_heights. Qed.
+Print Assumptions C02_toggle_forgets_old_heights.
+
+Theorem C02_recv_at_forgotten_height_rejected : forall P env s cs m cb ct,
+  aget (p_src (fst (decode P (rm_packet m)))) (st_clients s) = Some ct -> is_tss ct = false ->
+  ~ In (rm_height m) (heights_of cs (p_src (fst (decode P (rm_packet m))))) ->
+  forall w, step2 P (s, cs) ((env, ARecv m cb), w) = ((s, cs), false).
+Proof. exact recv_at_forgotten_height_rejected. Qed.
+Print Assumptions C02_recv_at_forgotten_height_rejected.
+
+Theorem C02_ack_at_forgotten_height_rejected : forall P env s cs m cb1 cb2 cb3 ct,
+  aget (p_dst (fst (decode P (am_packet m)))) (st_clients s) = Some ct -> is_tss ct = false ->
+  ~ In (am_height m) (heights_of cs (p_dst (fst (decode P (am_packet m))))) ->
+  forall w, step2 P (s, cs) ((env, AAck m cb1 cb2 cb3), w) = ((s, cs), false).
+Proof. exact ack_at_forgotten_height_rejected. Qed.
+Print Assumptions C02_ack_at_forgotten_height_rejected.
+
+(** The layer only rejects more: the packet state it reaches is the one the packet model reaches on the accepted
+    operations, so every theorem over [run] (C01 C04 C05) holds of the layered model too. *)
+Theorem C02_layer_refines_packet_model : forall P l sc, fst (run2 P sc l) = run P (fst sc) (accepted2 P sc l).
+Proof. exact run2_as_run. Qed.
+Print Assumptions C02_layer_refines_packet_model.
 
 (** Corollary (altered messages): if the client does not verify the commitment RECOMPUTED from the altered
     message (altered packet fields change the path arguments and/or sha256(abi_pack p); an altered proof or height
